@@ -358,6 +358,8 @@ func (s *coreStack) dump() map[string]interface{} {
 // ---------------------------------------------------------------- operations
 
 type coreDrv struct {
+	// obs (optional) sees every finished operation (request, messages, dump); returning true swallows the line
+	obs func(op, line map[string]interface{}) bool
 	c  *Ctx
 	s  *coreStack
 	id string // component name in the protocol
@@ -433,6 +435,9 @@ func (d *coreDrv) applyWithTap(op map[string]interface{}, tap func([]map[string]
 		if tap != nil {
 			tap(msgs)
 		}
+	}
+	if d.obs != nil && d.obs(op, line) {
+		return
 	}
 	c.emit(line)
 }
